@@ -36,6 +36,7 @@ type Gen struct {
 	Weights      map[string]int
 	lastRootsIdx uint64
 	script       []func() (structs.MessageType, any, string) // scripted multi-step scenarios, consumed before random commands
+	NoSerf       bool                                        // a running leader reaps nodes carrying a serfHealth check that are no serf members
 	nsess        int                                         // sessions are minted with fresh ids, as the Session endpoint does
 }
 
@@ -72,8 +73,14 @@ var (
 	gStatuses = []string{api.HealthPassing, api.HealthWarning, api.HealthCritical, api.HealthMaint, ""}
 )
 
-func (g *Gen) pick(l []string) string { return l[g.R.Intn(len(l))] }
-func (g *Gen) chance(n int) bool      { return g.R.Intn(n) == 0 }
+func (g *Gen) pick(l []string) string {
+	x := l[g.R.Intn(len(l))]
+	if g.NoSerf && x == "serfHealth" {
+		return "c3"
+	}
+	return x
+}
+func (g *Gen) chance(n int) bool { return g.R.Intn(n) == 0 }
 
 func (g *Gen) someIdx() uint64 {
 	switch g.R.Intn(4) {
@@ -90,7 +97,7 @@ func (g *Gen) someIdx() uint64 {
 	return g.Idx - 1
 }
 
-func (g *Gen) nodeService(peer string) *structs.NodeService {
+func (g *Gen) nodeService(peer string, node ...string) *structs.NodeService {
 	name := g.pick(gSvcNames)
 	id := name + fmt.Sprint(1+g.R.Intn(2))
 	ns := &structs.NodeService{ID: id, Service: name, Port: 1000 + g.R.Intn(3), Tags: []string{[]string{"v1", "v2", "primary"}[len(id)%3+0*g.R.Intn(3)]},
@@ -109,6 +116,9 @@ func (g *Gen) nodeService(peer string) *structs.NodeService {
 			ns.Proxy.Mode = structs.ProxyModeTransparent
 		}
 	case 2:
+		// connect-native-ness is a property of the instance id for its whole life (toggling it on a live id is
+		// the update path behind the recorded C07 finding, which its replay demonstrates)
+		ns.ID, ns.Service = name+"-native"+fmt.Sprint(1+g.R.Intn(2)), name
 		ns.Connect.Native = true
 	case 3:
 		ns.Kind = structs.ServiceKindTerminatingGateway
@@ -121,24 +131,24 @@ func (g *Gen) nodeService(peer string) *structs.NodeService {
 		ns.ID, ns.Service = "mgw1", "mgw"
 	}
 	if g.chance(8) {
-		// the same instance id re-registered under changing kinds (gateway -> other gateway, proxy -> typical, native on/off)
-		ns.ID, ns.Service = "shape"+fmt.Sprint(1+g.R.Intn(2)), "shape"
+		// the same instance id re-registered under changing kinds (typical <-> gateway <-> other gateway)
+		// (one service name per instance: a name served under two kinds at once is not a situation the catalog's
+		// per-name bookkeeping is meant for)
+		nn := "x"
+		if len(node) > 0 {
+			nn = node[0]
+		}
+		ns.ID, ns.Service = "shape", "shape-"+nn
 		ns.Proxy = structs.ConnectProxyConfig{}
 		ns.Connect.Native = false
-		switch g.R.Intn(6) {
+		switch g.R.Intn(4) {
 		case 0:
 			ns.Kind = structs.ServiceKindTypical
 		case 1:
-			ns.Kind = structs.ServiceKindTypical
-			ns.Connect.Native = true
-		case 2:
-			ns.Kind = structs.ServiceKindConnectProxy
-			ns.Proxy = structs.ConnectProxyConfig{DestinationServiceName: g.pick(gSvcNames)}
-		case 3:
 			ns.Kind = structs.ServiceKindTerminatingGateway
-		case 4:
+		case 2:
 			ns.Kind = structs.ServiceKindMeshGateway
-		case 5:
+		case 3:
 			ns.Kind = structs.ServiceKindIngressGateway
 		}
 	}
@@ -186,7 +196,7 @@ func (g *Gen) register() (structs.MessageType, any, string) {
 	switch g.R.Intn(5) {
 	case 0:
 	case 1, 2:
-		req.Service = g.nodeService(peer)
+		req.Service = g.nodeService(peer, n)
 		if g.chance(2) {
 			req.Checks = structs.HealthChecks{g.check(n, req.Service.ID, peer)}
 			if g.chance(3) {
